@@ -1086,6 +1086,9 @@ class QuantityMeta(ClassWithDefinitionMeta):
         _TERM_UNIT_MAP.register_item(unit)
         _SYMBOL_UNIT_MAP[symbol] = unit
         cls._unit_map[symbol] = unit
+        # cached results of unit operations may have to resolve to the new
+        # unit from now on
+        _UNIT_OP_CACHE.clear()
         return unit
 
     def _make_ref_unit(cls, symbol: str, name: Optional[str],  # noqa: N805
